@@ -724,7 +724,8 @@ class ASTString(ASTTemplate):
                 return f"{dataset}[{node.op} {body}]"
 
     def visit_RenameNode(self, node: AST.RenameNode) -> str:
-        return f"{node.old_name} to {node.new_name}"
+        old_name = "#".join(_format_reserved_word(x) for x in node.old_name.split("#"))
+        return f"{old_name} to {_format_reserved_word(node.new_name)}"
 
     def visit_TimeAggregation(self, node: AST.TimeAggregation) -> str:
         if node.period_to_ref is not None:
